@@ -274,6 +274,66 @@ func c09Merge(ts []*tree.Node) *core.Space {
 	}
 }
 
+// (ii-b) merges under field options: several sibling keys with the same shape, options that name
+// one of them, wildcards at the top and below a name - whichever sibling is merged first
+func c09FieldOptions() *core.Space {
+	mk := func(tag string) M {
+		sub := func(k string) M {
+			return M{"p": M{"x": L{tag + k + "x"}, "y": L{tag + k + "y"}}, "x": L{tag + k + "x2"}, "y": L{tag + k + "y2"}}
+		}
+		return M{"a": sub("a"), "b": sub("b"), "c": sub("c")}
+	}
+	optMenu := []struct {
+		name string
+		opts []ucfg.Option
+	}{
+		{`**.x prepend + a.**.y append`, []ucfg.Option{ucfg.FieldPrependValues("**.x"), ucfg.FieldAppendValues("a.**.y")}},
+		{`a.**.y append + **.x prepend`, []ucfg.Option{ucfg.FieldAppendValues("a.**.y"), ucfg.FieldPrependValues("**.x")}},
+		{`**.y append + b.p replace`, []ucfg.Option{ucfg.FieldAppendValues("**.y"), ucfg.FieldReplaceValues("b.p")}},
+		{`b.**.x append + c.**.x prepend + **.y replace`, []ucfg.Option{ucfg.FieldAppendValues("b.**.x"), ucfg.FieldPrependValues("c.**.x"), ucfg.FieldReplaceValues("**.y")}},
+		{`a append + **.p.x prepend`, []ucfg.Option{ucfg.FieldAppendValues("a"), ucfg.FieldPrependValues("**.p.x")}},
+		{`*.x append`, []ucfg.Option{ucfg.FieldAppendValues("*.x")}},
+		{`a.p.x append + b.p.y prepend + c replace`, []ucfg.Option{ucfg.FieldAppendValues("a.p.x"), ucfg.FieldPrependValues("b.p.y"), ucfg.FieldReplaceValues("c")}},
+	}
+	radices := []int{len(optMenu), len(allPolicies), 2}
+	return &core.Space{
+		Name: "merges-under-field-options",
+		Size: product(radices...),
+		Text: func(i int) string {
+			d := mixedRadix(i, radices...)
+			return fmt.Sprintf("global=%s options %s; {a,b,c} with lists x, y at two depths merged (%s)", allPolicies[d[1]], optMenu[d[0]].name, []string{"Merge", "Unpack into a *Config field"}[d[2]])
+		},
+		Exec: func(i int) core.Result {
+			d := mixedRadix(i, radices...)
+			sc := c09Scenario{Run: func() string {
+				opts := []ucfg.Option{ucfg.PathSep(".")}
+				opts = append(opts, policyOpt[allPolicies[d[1]]]...)
+				opts = append(opts, optMenu[d[0]].opts...)
+				ca, err := ucfg.NewFrom(mk("A"), ucfg.PathSep("."))
+				if err != nil {
+					return "newfrom:" + errClass(err)
+				}
+				if d[2] == 0 {
+					if err := ca.Merge(mk("B"), opts...); err != nil {
+						return "merge:" + errClass(err)
+					}
+					return observeConfig(ca, ucfg.PathSep("."))
+				}
+				cb, err := ucfg.NewFrom(M{"t": mk("B")}, ucfg.PathSep("."))
+				if err != nil {
+					return "newfrom:" + errClass(err)
+				}
+				tgt := struct{ T *ucfg.Config }{T: ca}
+				if err := cb.Unpack(&tgt, opts...); err != nil {
+					return "unpack:" + errClass(err)
+				}
+				return observeConfig(tgt.T, ucfg.PathSep("."))
+			}}
+			return c09Explore(sc, 1, 300)
+		},
+	}
+}
+
 // (iii) configs whose settings reference each other (the C08 family)
 func c09Refs(tier string) *core.Space {
 	top := []string{"a", "b"}
@@ -487,7 +547,7 @@ func init() {
 			if tier == "thorough" {
 				ts = unionTrees(ts, spines(1), mixedTrees(false)[:30])
 			}
-			return []*core.Space{c09NewFrom(tier), c09Merge(ts), c09Env(), c09Containers(), c09Refs(tier)}
+			return []*core.Space{c09NewFrom(tier), c09Merge(ts), c09FieldOptions(), c09Env(), c09Containers(), c09Refs(tier)}
 		},
 		Post: func(tier string, cov map[string]interface{}) {
 			// states/transitions are aggregated by the runner from Result.States/Trans
